@@ -1,0 +1,76 @@
+//! Verification hooks (feature `verif-hooks`, off by default).
+//!
+//! A labelled *tick* is emitted at every storage-operation boundary: at the entry of
+//! `with_connection`, at the entry of the functions that lock the connection directly, and between
+//! the statements inside the snapshot / restore transactions and the relay-replacement savepoint.
+//! A verification harness can record the ticks of one API call and arm a simulated process death
+//! (a panic, raised BEFORE the operation executes) at the k-th tick.  Nothing here changes
+//! behaviour unless a hook is armed by a harness; all state is thread-local.
+
+use std::cell::{Cell, RefCell};
+use std::panic::Location;
+
+/// Message of the panic raised at the armed tick.
+pub const CRASH_MESSAGE: &str = "verif-hooks: simulated process death at storage tick";
+
+/// Prefix of the `file` component of ticks emitted inside a transaction / savepoint bracket
+/// (the rest of the string is the name of the bracketing function).
+pub const IN_TX_PREFIX: &str = "tx:";
+
+thread_local! {
+    static COUNTER: Cell<u64> = const { Cell::new(0) };
+    static ARMED: Cell<Option<u64>> = const { Cell::new(None) };
+    static TRACING: Cell<bool> = const { Cell::new(false) };
+    static TRACE: RefCell<Vec<(u64, &'static str, u32)>> = const { RefCell::new(Vec::new()) };
+}
+
+/// Reset the tick counter to zero and arm (or, with `None`, disarm) process death at tick `k`.
+pub fn arm(k: Option<u64>) {
+    COUNTER.with(|c| c.set(0));
+    ARMED.with(|a| a.set(k));
+}
+
+/// Reset the tick counter, clear the trace and start recording ticks.
+pub fn start_trace() {
+    COUNTER.with(|c| c.set(0));
+    TRACE.with(|t| t.borrow_mut().clear());
+    TRACING.with(|t| t.set(true));
+}
+
+/// Stop recording and return the recorded ticks: (tick index, label file, label line).
+pub fn take_trace() -> Vec<(u64, &'static str, u32)> {
+    TRACING.with(|t| t.set(false));
+    TRACE.with(|t| std::mem::take(&mut *t.borrow_mut()))
+}
+
+/// Number of ticks seen since the last `arm` / `start_trace`.
+pub fn ticks() -> u64 {
+    COUNTER.with(|c| c.get())
+}
+
+fn emit(file: &'static str, line: u32) {
+    let n = COUNTER.with(|c| {
+        let n = c.get();
+        c.set(n + 1);
+        n
+    });
+    if TRACING.with(|t| t.get()) {
+        TRACE.with(|t| t.borrow_mut().push((n, file, line)));
+    }
+    if ARMED.with(|a| a.get()) == Some(n) {
+        // one shot: whatever runs during unwinding (Drop impls) must not die again
+        ARMED.with(|a| a.set(None));
+        panic!("{} {} ({}:{})", CRASH_MESSAGE, n, file, line);
+    }
+}
+
+/// A storage operation is about to start; the label is the caller's source location.
+pub fn tick(loc: &'static Location<'static>) {
+    emit(loc.file(), loc.line());
+}
+
+/// A statement inside an open transaction / savepoint of function `label` (given with the
+/// `tx:` prefix) is about to execute.
+pub fn tick_in_tx(label: &'static str, line: u32) {
+    emit(label, line);
+}
